@@ -256,3 +256,8 @@ add_multi("s-rhoend-chained-store-at-every-site", S, ["C18", "C10"], [
     ("dfols/controller.py", "        self.rhoend = params(\"restarts.rhoend_scale\") * self.rhoend  # the new run's rhoend (the main loop rescales its own copy identically)\n", ""),
     ("dfols/solver.py", "            rhoend = params(\"restarts.rhoend_scale\") * rhoend\n", "            rhoend = control.rhoend = params(\"restarts.rhoend_scale\") * rhoend\n", True),
 ])
+
+add("sfista-zero-iterations-allowed", F, "C07", "dfols/params.py", "type_str, nonetype_ok, lower, upper = 'int', False, 1, None  # need at least one S-FISTA iteration", "type_str, nonetype_ok, lower, upper = 'int', False, 0, None", "C07-11")
+add("dykstra-zero-sweeps-allowed", F, "C09", "dfols/params.py", "type_str, nonetype_ok, lower, upper = 'int', False, 1, None  # zero sweeps would return the point unprojected", "type_str, nonetype_ok, lower, upper = 'int', False, 0, None", "C09-6")
+add("local-assigned-in-one-branch-only", F, "C07", "dfols/controller.py", "        dist = sqrt(distsq)\n        if update_delta:  # optional", "        if update_delta:  # optional\n            dist = sqrt(distsq)", "C07-11")
+add("s-local-initialised-earlier", S, ["C07"], "dfols/trust_region.py", "    d = np.zeros(n) # start with zero vector\n    y = np.zeros(n)", "    d = np.zeros(n) # start with zero vector\n    gnew = g.copy()\n    y = np.zeros(n)")
